@@ -48,6 +48,15 @@ def rule_H1(ctx) -> None:
 def rule_H2(ctx) -> None:
     mod = ctx.repo.mod(M_ENUM)
     for q in ("Enum.__copy__", "Enum.__deepcopy__"):
+        if not mod.has(q):
+            # the copy module does not fall back from one hook to the other: without the hook it rebuilds the object through
+            # __reduce_ex__ / __new__, which yields an equal but distinct instance
+            other = "Enum.__copy__" if q.endswith("__deepcopy__") else "Enum.__deepcopy__"
+            ctx.refuted("H2", f"{q}:identity", "hook-missing", mod.rel, f"Enum defines no {q.split('.')[-1]}" + (f" (only {other.split('.')[-1]})" if mod.has(other) else "") +
+                        f": copy.{'deepcopy' if q.endswith('__deepcopy__') else 'copy'}(member) - and the deep copy of any message or container holding a member - builds a new object through "
+                        "__reduce_ex__ instead of returning the member, so the copy is equal to the canonical member but not identical with it",
+                        "copy.deepcopy(Colour.RED) is Colour.RED")
+            continue
         fn = mod.func(q)
         paths = Interp(mod).run(fn)
         ctx.count(len(paths))
